@@ -57,6 +57,17 @@ class C20(Prop):
             ops += body1 + [{"op": "counters"}, {"op": "dumpfs"}, clean_op(), {"op": "dumpfs"}, {"op": "newprocess"}, cfg0, G.op_setenv(env2[0], env2[1])]
             ops += G.interleave(r, [G.run_program(r, prog2, 1), [dict(e) for e in extra]]) + [{"op": "counters"}, {"op": "dumpfs"}, clean_op(), {"op": "dumpfs"}]
             cases.append({"ci": False, "updvar": r.choice(["unset", "true"]), "colour": False, "ops": ops, "meta": {}})
+        # a process in which every snapshot test is skipped through the library and NO Match* call runs: the summary still
+        # shows the skips (and nothing else)
+        for i in range(max(3, n // 40)):
+            r = rng.fork()
+            sk = []
+            for t in r.shuffle(G.TEST_NAMES)[: r.range(1, 3)]:
+                sk.append({"op": "skip", "test": hx(t), "form": r.choice(["", "f", "now"])})
+                if r.chance(1, 3):
+                    sk.append({"op": "skip", "test": hx(t + b"/child"), "form": r.choice(["", "f", "now"])})
+            ops = sk + [{"op": "counters"}, {"op": "dumpfs"}, {"op": "clean", "sort": r.chance(1, 2), "count": 1, "colour": r.chance(1, 2)}, {"op": "dumpfs"}]
+            cases.append({"ci": r.chance(1, 3), "updvar": r.choice(["unset", "true", "clean"]), "colour": False, "ops": ops, "meta": {"skip_only": True}})
         # file-system failures (outside the model: "FS calls succeed"): the snapshot directory cannot be created / file unreadable
         for i in range(n // 10):
             r = rng.fork()
